@@ -157,4 +157,6 @@ def run(model, tier):
     c03_riemann.check(model, res)
     from . import c03_mader
     c03_mader.check(model, res)
+    from . import c03_radshock
+    c03_radshock.wrappers(model, res)
     return res
